@@ -2,6 +2,7 @@ package c13
 
 import (
 	"fmt"
+	"math"
 	"strconv"
 	"strings"
 
@@ -346,8 +347,42 @@ func genS(r *core.Rand, tier string) core.Case {
 	length, next := 0, 0
 	var det []int // detached ids (the generator tracks them by replaying the sequence semantics)
 	var ids []int
-	idx := func() int { // all indices -1 .. len+1, ends favoured
-		switch r.Pick(2, 2, 2, 1, 1, 6) {
+	// huge indices: every multiple of 2^31 / 2^32 / 2^33 plus or minus a small offset, and both ends
+	// of the int range; an index test done in a narrower or unsigned type accepts some of these
+	huge := func() int {
+		j := r.Range(0, length+1)
+		if r.Chance(50) {
+			j = r.Range(0, 2)
+		}
+		switch r.Intn(10) {
+		case 0:
+			return 1<<31 + j
+		case 1:
+			return 1<<31 - 1 - j
+		case 2:
+			return -(1 << 31) + j
+		case 3:
+			return -(1 << 31) - 1 - j
+		case 4:
+			return 1<<32 + j
+		case 5:
+			return -(1 << 32) + j
+		case 6:
+			return 1<<32 - 1 - j
+		case 7:
+			if r.Bool() {
+				return 1<<33 + j
+			}
+			return -(1 << 33) + j
+		case 8:
+			return math.MaxInt - j
+		}
+		return math.MinInt + j
+	}
+	idx := func() int { // all indices -1 .. len+1, ends favoured; one in eight is huge
+		switch r.Pick(2, 2, 2, 1, 1, 6, 2) {
+		case 6:
+			return huge()
 		case 0:
 			return 0
 		case 1:
@@ -410,6 +445,14 @@ func genS(r *core.Rand, tier string) core.Case {
 			i, j := idx(), idx()
 			if length > 1 && r.Chance(60) {
 				i, j = r.Intn(length), r.Intn(length)
+				// one valid position, the other huge (either side)
+				if r.Chance(12) {
+					if r.Bool() {
+						i = huge()
+					} else {
+						j = huge()
+					}
+				}
 			}
 			lines = append(lines, fmt.Sprintf("swap %d %d", i, j))
 		case 7:
